@@ -34,7 +34,8 @@ ShapeOut == (n = 1 /\ pc = 1 /\ ~crashed.on) =>
      PrintT(<<"PROTOCOL", ToJson([routine |-> Routine, save |-> k, steps |-> [i \in 1..Len(p) |-> Shape(p[i])]])>>)
 
 (* ---- histories ---- *)
-DriverRoutine == IF Routine \in {"lru", "lru_inplace", "lru_fixed"} THEN "lru" ELSE Routine
+DriverRoutine == IF Routine \in {"lru", "lru_inplace", "lru_fixed"} THEN "lru"
+                 ELSE IF Routine = "journal_fixed" THEN "journal" ELSE Routine
 Alphabet ==
   CASE DriverRoutine = "lru"     -> {"mut", "bump", "save", "shutdown", "reopen"}
     [] DriverRoutine = "index"   -> {"add", "rm", "flush", "save", "reopen"}
